@@ -12,10 +12,10 @@ import ast, os, shutil, sys
 SRC = "/repo/persim"
 
 
-def make(src_repo, dest, suffix="_q"):
+def make(src_repo, dest, suffix="_q", restyle=False):
     global SRC
     SRC = os.path.join(src_repo, "persim")
-    sys.argv = ["neutral", dest, "--suffix", suffix]
+    sys.argv = ["neutral", dest, "--suffix", suffix] + (["--restyle"] if restyle else [])
     main()
 
 
@@ -61,6 +61,52 @@ class Renamer(ast.NodeTransformer):
         return node
 
 
+class Restyle(ast.NodeTransformer):
+    """Semantics-preserving restyling, applied on top of renaming when --restyle is given:
+      * single comparisons are mirrored:            a < b   ->  b > a      (also <=, >, >=, ==, !=; operands without calls)
+      * if/else arms are swapped under a negation:  if c: A else: B  ->  if not c: B else: A
+      * `return <expr>` goes through a temporary:   _rv = <expr>; return _rv   (top level of a function only)
+      * products/sums of two call-free operands where one is a numeric constant are commuted:  0.5 * x -> x * 0.5
+    None of these changes a value, an exception or an evaluation order that matters (operands are call-free)."""
+    MIRROR = {ast.Lt: ast.Gt, ast.Gt: ast.Lt, ast.LtE: ast.GtE, ast.GtE: ast.LtE, ast.Eq: ast.Eq, ast.NotEq: ast.NotEq}
+
+    @staticmethod
+    def _pure(e):
+        return not any(isinstance(x, (ast.Call, ast.Await, ast.Yield, ast.YieldFrom, ast.NamedExpr)) for x in ast.walk(e))
+
+    def visit_Compare(self, n):
+        self.generic_visit(n)
+        if len(n.ops) == 1 and type(n.ops[0]) in self.MIRROR and self._pure(n.left) and self._pure(n.comparators[0]):
+            return ast.copy_location(ast.Compare(n.comparators[0], [self.MIRROR[type(n.ops[0])]()], [n.left]), n)
+        return n
+
+    def visit_If(self, n):
+        self.generic_visit(n)
+        if n.orelse and not (len(n.orelse) == 1 and isinstance(n.orelse[0], ast.If)):
+            return ast.copy_location(ast.If(ast.UnaryOp(ast.Not(), n.test), n.orelse, n.body), n)
+        return n
+
+    def visit_BinOp(self, n):
+        self.generic_visit(n)
+        if isinstance(n.op, (ast.Mult, ast.Add)) and self._pure(n.left) and self._pure(n.right):
+            num = lambda e: isinstance(e, ast.Constant) and isinstance(e.value, (int, float)) and not isinstance(e.value, bool)
+            if num(n.left) != num(n.right):
+                return ast.copy_location(ast.BinOp(n.right, n.op, n.left), n)
+        return n
+
+    def visit_FunctionDef(self, n):
+        self.generic_visit(n)
+        body = []
+        for st in n.body:
+            if isinstance(st, ast.Return) and st.value is not None and not isinstance(st.value, (ast.Name, ast.Constant)):
+                body.append(ast.copy_location(ast.Assign([ast.Name("_rv", ast.Store())], st.value), st))
+                body.append(ast.copy_location(ast.Return(ast.Name("_rv", ast.Load())), st))
+            else:
+                body.append(st)
+        n.body = body
+        return n
+
+
 def main():
     dest = sys.argv[1]
     suffix = "_q"
@@ -81,6 +127,8 @@ def main():
                 warnings.simplefilter("ignore")
                 tree = ast.parse(open(os.path.join(dp, f)).read())
             tree = Renamer(suffix).visit(tree)
+            if "--restyle" in sys.argv:
+                tree = Restyle().visit(tree)
             ast.fix_missing_locations(tree)
             open(os.path.join(out, rel, f), "w").write(ast.unparse(tree) + "\n")
 
